@@ -186,8 +186,18 @@ def png_pixels(x, p):
     x.out('back', list(back))
 
 
+from props import C04 as _C04
+
 Q = {'_budget': 200}
 HARNESSES = [
+    # memory layout of the PNG (gfx|map|gff|music|sfx|code|version): the
+    # C04 round-trip harness also compares every symbolic row with the pixel
+    # the format prescribes for it
+    Harness('png_layout', _C04.roundtrip,
+            quick=[dict(Q, ncode=0, body='x=1\n',
+                        rows={'gfx': [127], 'map': [0], 'gff': [1],
+                              'music': [0], 'sfx': [0]},
+                        label_px=[0x2000, 0x3000, 0x3100, 0x3200])]),
     Harness('gfx', gfx, quick=[dict(Q, rows=1)],
             thorough=[dict(Q, rows=4, _budget=600)]),
     Harness('plain', plain, quick=[dict(Q, sec='gff', rows=1),
